@@ -49,6 +49,25 @@ def classes():
         def inversion(self):
             return self._inversion
 
+    class ProfileStub:
+        """A user object with a decorated function of a grid, as light / mass profiles are downstream: the over-sampling
+        decorator evaluates it through the grid's over-sampler (uniform or iterative)."""
+
+        def __init__(self, centre, scale):
+            self.centre = centre
+            self.scale = scale
+
+        @aa.over_sample
+        @aa.grid_dec.to_array
+        def image_2d_from(self, grid, *args, **kwargs):
+            radii = np.sqrt(np.square(grid[:, 0] - self.centre[0]) + np.square(grid[:, 1] - self.centre[1]))
+            return np.exp(-radii / self.scale)
+
+        @aa.grid_dec.to_grid
+        def deflections_yx_2d_from(self, grid, *args, **kwargs):
+            return np.stack((self.scale * (grid[:, 0] - self.centre[0]), self.scale * (grid[:, 1] - self.centre[1])), axis=-1)
+
+    _cache["ProfileStub"] = ProfileStub
     _cache["FuncList"] = FuncList
     _cache["FitStub"] = FitStub
     return _cache
